@@ -43,7 +43,7 @@ def history(rng):
         x = rng.choice(st)
         tos = rng.choice([0, 0, 0, 1, 1, 2, 2, 3, 0x80, 0xff, rng.randrange(256)])
         if c < 0.40:
-            ops.append('rx 0 ' + F.discover(x, rng.randrange(65536), rng.randrange(65536), tos=tos, eth_src=rng.choice([None, rng.choice(st)])))
+            ops.append('rx 0 ' + F.discover(x, rng.choice(F.GENS + [rng.randrange(65536)]), rng.randrange(65536), tos=tos, eth_src=rng.choice([None, rng.choice(st)])))
             if tos <= 1 and active is None:
                 active = x
         elif c < 0.55:
